@@ -219,6 +219,9 @@ impl TypeDefinition {
                     }
                 };
 
+        // the type definition belongs to the service, a failing verification must not remove it
+        static_storage.release_ownership();
+
         let mut existing_schema_content = vec![0u8; static_storage.len() as usize];
         match static_storage.read(&mut existing_schema_content) {
             Ok(()) => (),
@@ -240,8 +243,6 @@ impl TypeDefinition {
             fail!(from self, with ServiceOpenError::IncompatiblePayload,
                     "{msg} since the payload defined in the provided type definition is not equal to the type definition of the service.");
         }
-
-        static_storage.release_ownership();
 
         Ok(Some(TypeDefinitionStorage {
             storage: static_storage,
